@@ -817,6 +817,10 @@ class PseudoNetCDFFile(PseudoNetCDFSelfReg, object):
 
         # renaming a dimension to its own name is a no-op
         newkeys = {ok: nk for ok, nk in newkeys.items() if ok != nk}
+        if len(set(newkeys.values())) != len(newkeys):
+            raise ValueError(
+                'Cannot rename several dimensions to the same name: %s' %
+                (newkeys,))
         for oldkey, newkey in newkeys.items():
             if newkey in outf.dimensions:
                 raise ValueError(
